@@ -20,6 +20,10 @@ REACTIONS = {
     # two IDENTICAL spin-1 siblings that both decay: (lambda1, lambda2) and (lambda2, lambda1) at the production node are different chains
     "chic1_phi_phi": dict(initial_state="chi(c1)(1P)", final_state=["K+", "K-", "K0", "K~0"], allowed_intermediate_particles=["phi(1020)"],
                           allowed_interaction_types=["strong"]),
+    # the SAME resonance twice with the SAME daughters, daughter helicities +-1 (photon): both nodes of one chain can carry the same
+    # coefficient suffix and both can be parity-flipped (eta(omega -> gamma pi0) = -1), the product of two prefactors is +1
+    "chic0_omega_omega": dict(initial_state="chi(c0)(1P)", final_state=["gamma", "pi0", "gamma", "pi0"], allowed_intermediate_particles=["omega(782)"],
+                              allowed_interaction_types=["strong", "EM"]),
     # a massless spin-1/2 state next to a massive spin-1 state (axis-angle alignment: the flag `no_zero_spin` must follow the ROTATED state)
     "tau_nu_rho": dict(initial_state="tau-", final_state=["nu(tau)", "rho(770)-"], allowed_interaction_types=["weak"]),
     "tau_nu_rho0_pi": dict(initial_state="tau-", final_state=["nu(tau)", "rho(770)0", "pi-"], allowed_intermediate_particles=["a(1)(1260)-"],
